@@ -12,11 +12,13 @@ let commas s = List.filter (fun x -> x <> "") (String.split_on_char ',' s)
 let parse_op (tok : string) : op list =
   let a = rest tok in
   match tok.[0] with
-  | 's' -> (match commas a with [l; ad] -> [OSend (n_of_string l, ad = "1")] | _ -> failwith tok)
-  | 't' -> (match commas a with [l; ad] -> [OTry (n_of_string l, ad = "1")] | _ -> failwith tok)
+  | 's' -> (match commas a with [l; ad] -> [OSend (n_of_string l, nat_ ad)] | _ -> failwith tok)
+  | 't' -> (match commas a with [l; ad] -> [OTry (n_of_string l, nat_ ad)] | _ -> failwith tok)
   | 'u' -> (match commas a with
-            | f :: ls -> [OTry2 (List.map n_of_string ls, z_of_string f)]
+            | f :: ad :: ls -> [OTry2 (List.map n_of_string ls, z_of_string f, nat_ ad)]
             | _ -> failwith tok)
+  | 'c' -> [OConnect (nat_ a)]
+  | 'd' -> [ODisconnect]
   | 'g' -> [OGet]
   | 'p' -> [ORecvStart]
   | 'q' -> [ORecvStop]
@@ -47,14 +49,22 @@ let str_rans = function
 let b01 b = if b then "1" else "0"
 let seqs l = String.concat "." (List.map (fun s -> string_of_int (int_of_nat s)) l)
 
+(* msg_name of each datagram as of the latest EName events (seq -> address) *)
+let names : (int, int) Hashtbl.t = Hashtbl.create 64
+let nm s = string_of_int (int_of_nat s) ^ "@" ^
+  (match Hashtbl.find_opt names (int_of_nat s) with Some a -> string_of_int a | None -> "?")
+
 let str_event (e : event) : string =
   match e with
+  | EName l -> List.iter (fun (s, a) -> Hashtbl.replace names (int_of_nat s) (int_of_nat a)) l; ""
+  | EConnect (d, r) -> Printf.sprintf "C%d=%s" (int_of_nat d) (string_of_z r)
+  | EDisconnect r -> "D=" ^ string_of_z r
   | ESend (id, seq, len, ret) ->
       Printf.sprintf "S%d,%d,%s=%s" (int_of_nat id) (int_of_nat seq) (string_of_z len) (string_of_z ret)
   | ETry (seq, len, ret) -> Printf.sprintf "T%d,%s=%s" (int_of_nat seq) (string_of_z len) (string_of_z ret)
   | ETry2 (seq0, cnt, ret) -> Printf.sprintf "U%d,%d=%s" (int_of_nat seq0) (int_of_nat cnt) (string_of_z ret)
-  | ESys1 (seq, a) -> Printf.sprintf "m%d=%s" (int_of_nat seq) (str_sans a)
-  | ESysN (l, a) -> Printf.sprintf "M%s=%s" (seqs l) (str_sans a)
+  | ESys1 (seq, a) -> Printf.sprintf "m%s=%s" (nm seq) (str_sans a)
+  | ESysN (l, a) -> Printf.sprintf "M%s=%s" (String.concat "." (List.map nm l)) (str_sans a)
   | ECb (id, st) -> Printf.sprintf "c%d,%s" (int_of_nat id) (string_of_z st)
   | EGet (sz, cnt, act) -> Printf.sprintf "g%s,%s,%s" (string_of_z sz) (string_of_z cnt) (b01 act)
   | ERecvStart r -> "P" ^ string_of_z r
@@ -80,7 +90,7 @@ let case (line : string) : string =
   match List.map String.trim (String.split_on_char ';' line) with
   | [cfg; allocs; _; _; ops; behs; rbehs; sa; ra] ->
       let conn, mm = (match split_on ' ' cfg with
-        | [_; c; m] -> (c = "1", m = "1") | _ -> failwith "cfg") in
+        | [_; c; m] | [_; c; m; _] -> (c = "1", m = "1") | _ -> failwith "cfg") in
       let al = List.map z_of_string (split_on ' ' allocs) in
       let ba = behs_of behs and rba = behs_of rbehs in
       let beh k = let k = int_of_nat k in if k < Array.length ba then ba.(k) else [] in
@@ -89,8 +99,12 @@ let case (line : string) : string =
                  (List.map parse_rans (split_on ' ' ra)) al in
       let (_, tr) = run fx beh rbeh s0 (parse_ops ops) in
       let buf = Buffer.create 1024 in
-      List.iter (fun e -> Buffer.add_string buf (str_event e); Buffer.add_char buf ' ') tr;
-      Buffer.add_string buf ("W" ^ seqs (handed tr));
+      Hashtbl.reset names;
+      List.iter (fun e -> let t = str_event e in
+                          if t <> "" then (Buffer.add_string buf t; Buffer.add_char buf ' ')) tr;
+      let dl = delivered (if conn then nat_of_int 1 else O) [] tr in
+      let got w = List.filter_map (fun (s, who) -> if int_of_nat who = w then Some s else None) dl in
+      Buffer.add_string buf ("W" ^ seqs (got 1) ^ " Y" ^ seqs (got 2));
       Buffer.add_string buf (if accepts tr then " A1" else " A0");
       Buffer.contents buf
   | l -> failwith (Printf.sprintf "bad case (%d fields)" (List.length l))
